@@ -145,9 +145,21 @@ def run(tier):
     for g_ in gen:
         if g_["kind"] == "sos":
             cases.append({"id": len(cases), "gen": g_, "cfgname": "native", "opts": []})
+    # alldiff / !alldiff over continuous variables (AMPL allows them): a seeded handful of every use, always on
+    # the half-integer grid and with more candidate points (values half a unit from another argument)
+    rnda = random.Random(seed() + 19)
+    contad = {}
+    for g_ in gen:
+        if g_["kind"] == "log" and g_["op"] in ("alldiff", "notalldiff", "not_alldiff") and sum(p_.startswith("c") for p_ in g_["pat"]) >= 1:
+            contad.setdefault((g_["op"], g_["sh"]), []).append(g_)
+    forced = set()
+    for key_ in sorted(contad):
+        for g_ in rnda.sample(contad[key_], min(len(contad[key_]), 3)):
+            forced.add(len(cases))
+            cases.append({"id": len(cases), "gen": g_, "cfgname": "native", "opts": []})
     for j, c in enumerate(cases):           # only native-style configurations (canonical aux values exist)
         c["cfgname"], c["opts"] = native[j % len(native)][0], list(native[j % len(native)][1])
-        c["half_grid"] = (j % 3 == 0)
+        c["half_grid"] = (j % 3 == 0) or j in forced
     recs, stats = cvtcases.run_and_record(exe, PID, cases)
     canon_in = [dict(r, e="Canon") for r in recs if r.get("e") == "Case" and r["outcome"] == "converted" and not r["ng"]]
     res1 = validate_parallel("TraceSolCheck", "TraceSolCheck.cfg", canon_in, sd, "c07a")
@@ -170,7 +182,7 @@ def run(tier):
                 lst.insert(0, lst.pop(hi))
                 lo = min(range(1, len(lst)), key=lambda i_: lst[i_]["p"][0])
                 lst.insert(1, lst.pop(lo))
-        Kc = 4 * K if byid[cid]["gen"]["kind"] == "sos" else K
+        Kc = 4 * K if byid[cid]["gen"]["kind"] == "sos" or cid in forced else K
         for q in good[:Kc // 2] + bad[:Kc - min(len(good), Kc // 2)]:
             name, mode, st, chkinfeas, fail = VARIANTS[rnd.randrange(len(VARIANTS))]
             c = byid[cid]
